@@ -176,6 +176,41 @@ def drive(tier):
         dersig(bytes(m_))
     for b_ in (b"", b"\x30", b"\x31\x00", b"\x30\x00", b"\x30\x02\x02\x00", b"\x30\x04\x02\x00\x02\x00", b"\x30\x06\x02\x01\x01\x02\x01\x01", b"\x30\x05\x02\x00\x02\x00\x00"):
         dersig(b_)
+    # ---- opcode helpers and the remaining script predicates
+    from bitcoin.core.script import CScriptOp
+    for op in range(256):
+        o = CScriptOp(op)
+        k1, n_ = call(o.decode_op_n)
+        k2, e_ = call(CScriptOp.encode_op_n, op)
+        R.add("x.opn", {"op": op}, {"small": bool(o.is_small_int()), "n": int(n_) if k1 == "ret" else -1, "enc": int(e_) if k2 == "ret" else -1})
+    for n in (0, 1, 75, 76, 77, 255, 256, 257, 65535, 65536):
+        d_ = gen.rbytes(r, n)
+        R.add("x.pushdata", {"d": b2l(d_)}, {"enc": b2l(CScriptOp.encode_op_pushdata(d_))})
+    for _ in range(150):
+        c = r.randrange(6)
+        n = r.choice([2, 20, 32, 40, 21, 33])
+        if c == 0:
+            s_ = bytes([r.choice([0, 0x51, 0x52, 0x60, 0x4f, 0x61]), n]) + gen.rbytes(r, n)
+        elif c == 1:
+            s_ = bytes([0x16, 0, 0x14]) + gen.rbytes(r, r.choice([20, 20, 19, 21]))
+        elif c == 2:
+            s_ = bytes([0x22, 0, 0x20]) + gen.rbytes(r, r.choice([32, 32, 31, 33]))
+        elif c == 3:
+            s_ = bytes([r.choice([0x16, 0x22, 0x17]), r.choice([0, 1]), r.choice([0x14, 0x20])]) + gen.rbytes(r, r.choice([20, 32]))
+        elif c == 4:
+            s_ = bytes([r.choice([0, 0x51, 0x60]), n + r.choice([-1, 0, 1])]) + gen.rbytes(r, n)
+        else:
+            s_ = gen.rbytes(r, r.randrange(0, 45))
+        sc_ = CScript(s_)
+        kv, ver_ = call(sc_.witness_version)
+        R.add("x.wpred", {"s": b2l(s_)}, {"nkh": bool(sc_.is_witness_v0_nested_keyhash()), "nsh": bool(sc_.is_witness_v0_nested_scripthash()),
+                                           "ver": int(ver_) if kv == "ret" and isinstance(ver_, int) else -1})
+    # ---- repr(CScript): every opcode by name, small integers, data, malformed tails
+    reprs = [bytes([op]) for op in range(0x4f, 256)] + [b"", b"\x00", b"\x01\x07", b"\x4c\x01\x07", b"\x4d\x01\x00\x07", b"\x4e\x01\x00\x00\x00\x07", b"\x4c\x00",
+             b"\x51\x02\x01", b"\x51\x4c", b"\x4d\x01", b"\x4e\x01\x00\x00", b"\x05\x01\x02", b"\x76\xa9\x14" + bytes(20) + b"\x88\xac"]
+    reprs += [bytes(r.choice([0, 0x51, 0x60, 0x4f, 0x61, 0x6a, 0xac, 0xb1, 0xb2, 0xba, 0xfc, 0xff, 1, 2]) for _ in range(r.randrange(1, 8))) for _ in range(120)]
+    for s_ in reprs:
+        R.add("x.repr", {"s": b2l(s_)}, {"text": text(repr(CScript(s_)))})
     # ---- address conveniences
     from bitcoin.wallet import CBitcoinAddress as _A, P2SHBitcoinAddress as _P2SH, P2PKHBitcoinAddress as _P2PKH
     CLS = {"P2PKHBitcoinAddress": "P2PKH", "P2SHBitcoinAddress": "P2SH", "P2WPKHBitcoinAddress": "P2WPKH", "P2WSHBitcoinAddress": "P2WSH"}
